@@ -325,7 +325,7 @@ package cache
 //@   ensures [C18.delete.metric] c.t.Stat != nil && found ==> onlyMetric(MetricDelete, 1.0)
 //@   ensures [C18.delete.none] c.t.Stat == nil || !found ==> noMetric()
 //@   ensures [C07.delete.repok] repOK(c)
-//@   modifies M|map[uint64]*TraitEntry|* @stat @log
+//@   modifies M|map[uint64]*TraitEntry|* G|removed @stat @log
 
 // Load / Store are Read / Write with the background context.
 
@@ -425,17 +425,20 @@ package cache
 // DeleteAll: the cache is empty afterwards.
 
 //@ func (*shardedMap).DeleteAll
-//@   props C07 C08 C16
+//@   props C07 C08 C16 C18
 //@   requires ctx != nil && repOK(c)
 //@   ensures [C07.deleteall.empty] forall h uint64 :: !hasH(c, h)
 //@   ensures [C07.deleteall.entries] entriesKept()
+//@   ensures [C18.deleteall.count] c.t.Stat != nil && removed() - old(removed()) <= 9007199254740992 ==> metric(MetricDelete) == old(metric(MetricDelete)) + real(removed() - old(removed()))
 //@   loop 1 (range c.hashedBuckets) invariant [C07.da.bounds] -1 <= rangeindex && rangeindex <= 127
+//@   loop 1 invariant [C18.da.count] cnt == removed() - old(removed()) && cnt >= 0 && noMetric()
+//@   loop 2 invariant [C18.da.in.count] cnt == removed() - old(removed()) && cnt >= 0 && noMetric()
 //@   loop 1 invariant [C07.da.done] forall h uint64 :: h % 128 <= rangeindex ==> !hasH(c, h)
 //@   loop 1 invariant [C07.da.shard] keysInShard(c)
 //@   loop 2 (range c.hashedBuckets[i].data) invariant [C07.da.in.visited] forall h uint64 :: visited(h) ==> !has(c.hashedBuckets[i].data, h)
 //@   loop 2 invariant [C07.da.in.done] forall h uint64 :: h % 128 < i ==> !hasH(c, h)
 //@   loop 2 invariant [C07.da.in.shard] keysInShard(c)
-//@   modifies M|map[uint64]*TraitEntry|* @stat @log G|clock G|clk G|nclk
+//@   modifies M|map[uint64]*TraitEntry|* G|removed @stat @log G|clock G|clk G|nclk
 
 //@ func (*shardedMapOf[V]).ExpireAll
 //@   like (*shardedMap).ExpireAll subst TraitEntry=TraitEntryOf[V]
@@ -515,7 +518,7 @@ package cache
 //@   ensures [C07.sm.delete.others] forall s string :: s != kb ==> sHas(c, s) == old(sHas(c, s)) && sGet(c, s) == old(sGet(c, s))
 //@   ensures [C18.sm.delete.metric] c.t.Stat != nil && found ==> onlyMetric(MetricDelete, 1.0)
 //@   ensures [C18.sm.delete.none] c.t.Stat == nil || !found ==> noMetric()
-//@   modifies SM|* @stat @log
+//@   modifies SM|* G|removed @stat @log
 //@   replay smdelete
 
 //@ func (*syncMap).deleteExpired
@@ -722,7 +725,7 @@ package cache
 // The background build goroutine of Get. It starts owning the build token of its key.
 //@ func (*Failover).Get$2
 //@   thread
-//@   props C01 C02 C04 C05 C06
+//@   props C01 C02 C04 C05 C06 C09
 //@   holds bytes(*key) *keyLock Failover.keyLocks
 //@   requires *f != nil && *ctx != nil && *buildFunc != nil && *keyLock != nil && failoverOK(*f) && errorsOnly(*f)
 //@   requires (*f).keyLocks != nil && klKey(*keyLock) == bytes(*key) && !closed((*keyLock).lock) && (*keyLock).lock != nil
@@ -734,7 +737,7 @@ package cache
 
 // Get. Values named below: the first backend read (rerr, rval), its classification, what the helpers returned.
 //@ func (*Failover).Get
-//@   props C01 C02 C03 C04 C05 C06 C18
+//@   props C01 C02 C03 C04 C05 C06 C09 C18
 //@   replay failover
 //@   requires ctx != nil && buildFunc != nil && failoverOK(f) && errorsOnly(f) && f.keyLocks != nil
 //@   requires abs(ttlOf(ctx)) <= 1577880000000000000
@@ -898,7 +901,7 @@ package cache
 //@   like (*Failover).Get$2 subst Failover=FailoverOf[V] failoverOK=failoverOKOf errorsOnly=errorsOnlyOf shardedMap=shardedMapOf
 
 //@ func (*FailoverOf[V]).Get
-//@   props C01 C02 C03 C04 C05 C06 C18
+//@   props C01 C02 C03 C04 C05 C06 C09 C18
 //@   replay failover api:=generic
 //@   requires ctx != nil && buildFunc != nil && failoverOKOf(f) && errorsOnlyOf(f) && f.keyLocks != nil
 //@   requires abs(ttlOf(ctx)) <= 1577880000000000000
@@ -1084,10 +1087,12 @@ package cache
 //@   replayfor guard: entryrace backend:=syncmap
 
 //@ func (*syncMap).DeleteAll
-//@   props C07 C16
+//@   props C07 C16 C18
 //@   requires ctx != nil && sRepOK(c)
 //@   ensures [C07.sm.deleteall.empty] forall s string :: !sHas(c, s)
+//@   ensures [C18.sm.deleteall.count] c.t.Stat != nil && removed() - old(removed()) <= 9007199254740992 ==> metric(MetricDelete) == old(metric(MetricDelete)) + real(removed() - old(removed()))
 //@   range 1 invariant [C07.sm.da.visited] forall s string :: visited(s) ==> !sHas(c, s)
+//@   range 1 invariant [C18.sm.da.count] cnt == removed() - old(removed()) && cnt >= 0 && cnt == visitedCount() && noMetric()
 
 // The public accessors of Entry have value receivers; a call through the Entry interface (which holds *TraitEntry,
 // e.g. in Walk callbacks and Dump) runs these compiler-generated pointer wrappers, which copy the whole entry.
